@@ -30,7 +30,9 @@ BS == "\\"
 \* quil-rs that breaks the property; TLC then produces the counterexample (cfgs under spec/mc/findings).
 CONSTANTS RawPrint,        \* print the string between quotes without escaping (the DELAY writer before
                            \* commit "fix: escape DELAY frame names like every other quoted string")
-          SwapPasses,      \* run the `\\` pass before the `\"` pass in unescaped_quoted_string
+          SwapPasses,      \* run the `\\` pass before the `\"` pass in unescaped_quoted_string.  (TLC shows this edit is
+                           \* harmless on printed text: both orders invert EscBody for every string up to length 5;
+                           \* kept as a documented non-finding)
           NoBackslashEsc   \* QuotedString display that escapes the quote but not the backslash
 
 ---------------------------------------------------------------------------
@@ -92,26 +94,28 @@ VARIABLES s,      \* the string value held by the program
           txt,    \* the text handed to the lexer: Escape(s) \o rest
           pos,    \* the loop's position (1-based index of the next character)
           esc,    \* is_escaped
-          phase   \* "gen" | "lex" | "closed" | "eof"
-vars == <<s, rest, txt, pos, esc, phase>>
+          phase,  \* "gen" | "lex" | "closed" | "eof"
+          printed \* TRUE: txt is Escape(s) \o rest (what the printer wrote); FALSE: txt is an arbitrary text that
+                  \* starts with a quote (the lexer on input the printer did not produce: it may run into the end)
+vars == <<s, rest, txt, pos, esc, phase, printed>>
 
 LexInit(str, cont) == /\ s = str /\ rest = cont /\ txt = Escape(str) \o cont
-                      /\ pos = 2 /\ esc = FALSE
+                      /\ pos = 2 /\ esc = FALSE /\ printed = TRUE
 
 LexChar ==
   /\ phase = "lex" /\ pos <= Len(txt)
   /\ LET c == txt[pos] IN
        /\ ~(c # BS /\ ~esc /\ c = Q)          \* that is the Close arm
        /\ esc' = IF c = BS THEN ~esc ELSE FALSE
-  /\ pos' = pos + 1 /\ UNCHANGED <<s, rest, txt, phase>>
+  /\ pos' = pos + 1 /\ UNCHANGED <<s, rest, txt, phase, printed>>
 
 Close ==
   /\ phase = "lex" /\ pos <= Len(txt) /\ txt[pos] = Q /\ ~esc
-  /\ phase' = "closed" /\ UNCHANGED <<s, rest, txt, pos, esc>>
+  /\ phase' = "closed" /\ UNCHANGED <<s, rest, txt, pos, esc, printed>>
 
 Eof ==
   /\ phase = "lex" /\ pos > Len(txt)
-  /\ phase' = "eof" /\ UNCHANGED <<s, rest, txt, pos, esc>>
+  /\ phase' = "eof" /\ UNCHANGED <<s, rest, txt, pos, esc, printed>>
 
 \* result of the lexer in a closed state
 Inner  == SubSeq(txt, 2, pos - 1)
@@ -122,17 +126,18 @@ Remain == SubSeq(txt, pos + 1, Len(txt))
 \* The property and its supporting invariants
 
 \* C07: the string survives, and the lexer stops exactly at the closing quote
-RoundTrip == phase = "closed" => (Value = s /\ Remain = rest)
+RoundTrip == (phase = "closed" /\ printed) => (Value = s /\ Remain = rest)
 \* the printed text always has a closing quote the lexer finds
-NeverEof  == phase # "eof"
+NeverEof  == printed => phase # "eof"
 \* the step machine and the recursive function are the same lexer
-ScanAgrees == phase = "closed" => Scan(txt, 2, FALSE) = pos
+ScanAgrees == /\ phase = "closed" => Scan(txt, 2, FALSE) = pos
+              /\ phase = "eof" => Scan(txt, 2, FALSE) = 0
 \* loop invariant: is_escaped is the parity of the backslash run that ends just before pos
 RECURSIVE TrailingBS(_, _)
 TrailingBS(t, p) == IF p >= 1 /\ t[p] = BS THEN 1 + TrailingBS(t, p - 1) ELSE 0
 EscParity == phase = "lex" => (esc <=> (TrailingBS(txt, pos - 1) % 2 = 1))
 \* loop invariant: the lexer never runs past the printed string into the continuation
-InsideString == phase = "lex" => pos <= Len(Escape(s))
+InsideString == (phase = "lex" /\ printed) => pos <= Len(Escape(s))
 \* pure-function forms (evaluated once per generated s)
 UnescapeInverts == phase = "gen" => Unescape(EscBody(s)) = s
 TwoPassIsDecode == phase = "gen" => Decode(EscBody(s)) = Unescape(EscBody(s))
